@@ -33,6 +33,36 @@ def main() -> int:
         print(f"replaying {info.get('rule')} at {info.get('construct')}: re-running all rules of {ns.prop}")
     prop = ns.prop.upper()
 
+    def check_with_selftest_and_seeds(report, repo):
+        check_with_selftest(report, repo)
+        if os.environ.get("USA_REPO_ROOT"):
+            return
+        # independently produced changes stored under /verif/seeded: those this property's check is
+        # recorded to catch must still be caught (applied to a scratch copy of the current tree)
+        import json
+        import shutil
+        import subprocess
+        import tempfile
+
+        verif = Path(__file__).resolve().parent.parent
+        for meta_f in sorted((verif / "seeded").glob("*/meta.json")):
+            meta = json.loads(meta_f.read_text())
+            if prop not in meta.get("detected_by", {}):
+                continue
+            tmp = Path(tempfile.mkdtemp(prefix="usa-seeded-"))
+            try:
+                shutil.copytree(repo.root / "unit_scaling", tmp / "unit_scaling", ignore=shutil.ignore_patterns("__pycache__", "tests"))
+                subprocess.run(["git", "init", "-q"], cwd=tmp)
+                r = subprocess.run(["git", "apply", "--whitespace=nowarn", "--exclude=unit_scaling/tests/*", str(meta_f.parent / "patch.diff")], cwd=tmp, capture_output=True, text=True)
+                if r.returncode != 0:
+                    report.note("seeded_stale_" + meta["id"], "patch no longer applies to the current tree")
+                    continue
+                env = dict(os.environ, USA_REPO_ROOT=str(tmp), USA_EVIDENCE_DIR=str(tmp / "ev"))
+                c = subprocess.run([sys.executable, str(verif / "usa" / "check.py"), prop, "--tier", "quick"], capture_output=True, text=True, env=env, cwd=str(verif))
+                report.add("S-seeded", f"seeded::{meta['id']}", True if c.returncode == 1 else None, f"independently produced change {meta['id']} ({meta.get('summary', '')[:120]}) is reported by this check" if c.returncode == 1 else f"seeded change {meta['id']} is no longer reported (exit {c.returncode})", f"exit {c.returncode}", "exit 1", nontrivial=False)
+            finally:
+                shutil.rmtree(tmp, ignore_errors=True)
+
     def check_with_selftest(report, repo):
         mod.check(report, repo)
         if tier == "thorough" and not os.environ.get("USA_REPO_ROOT"):
@@ -50,7 +80,7 @@ def main() -> int:
             for r in res:
                 report.add("S-selftest", f"selftest::{r[0]}", True if r[1] == "ok" else None, ("checker self-validation variant behaves as expected" if r[1] == "ok" else f"checker self-validation failed ({r[1]}): {r[2]}"), r[1], "ok", nontrivial=False)
 
-    return run_check(prop, check_with_selftest, tier, seed)
+    return run_check(prop, check_with_selftest_and_seeds if tier == "thorough" else check_with_selftest, tier, seed)
 
 
 if __name__ == "__main__":
